@@ -6,7 +6,11 @@ import QRV.Props.C02
 import QRV.Props.C03
 import QRV.Props.C04
 import QRV.Props.C05
+import QRV.Props.C06
+import QRV.Props.C07
+import QRV.Props.C08
 import QRV.Props.C09
+import QRV.Props.C10
 import QRV.Props.C11
 import QRV.Props.C12
 import QRV.Props.C13
